@@ -150,6 +150,24 @@ def candidates(plan):
     if plan.get("level") == "est":
         yield from candidates_est(plan)
         return
+    if plan.get("level") == "reuse":
+        # solver-object reuse histories: simplest budgets / storage / mode
+        k = plan["knobs"]
+        for name, simple in (("max_iter", 1), ("max_epochs", 1), ("max_epochs", 7), ("max_pn_iter", 1),
+                             ("p0", 10), ("ws_strategy", "subdiff")):
+            if name in k and k[name] != simple:
+                p2 = copy.deepcopy(plan)
+                p2["knobs"][name] = simple
+                yield "knob_" + name, p2
+        if plan.get("storage") != "F":
+            p2 = copy.deepcopy(plan)
+            p2["storage"] = "F"
+            yield "storage_F", p2
+        if plan.get("mode") != "new_array":
+            p2 = copy.deepcopy(plan)
+            p2["mode"] = "new_array"
+            yield "mode_new_array", p2
+        return
     if plan.get("level") == "rng":
         if len(plan["rng_draws"]) > 1:
             h = len(plan["rng_draws"]) // 2
